@@ -17,3 +17,4 @@ INVARIANT OneBodyPerId
 INVARIANT ReturnedOkMeansComplete
 INVARIANT NoPartialVisibleUnlocked
 CHECK_DEADLOCK FALSE
+INVARIANT FinalReadFindsResult
